@@ -34,10 +34,10 @@ func LimitSizes(kind string) []int {
 	case "selectors":
 		return []int{254, 255, 256, 257}
 	case "array-literal":
-		return []int{255, 256, 257, 1000}
+		return []int{255, 256, 257, 1000, 65535, 65536}
 	case "map-literal":
-		// the MAP operand counts keys and values: it passes one byte at 128 pairs
-		return []int{127, 128, 129, 300}
+		// the MAP operand counts keys and values: it passes one byte at 128 pairs and two bytes at 32768 pairs
+		return []int{127, 128, 129, 300, 32767, 32768}
 	}
 	return nil
 }
